@@ -58,6 +58,9 @@ CHECKS = {
  "C20": ("sockets", "exhaustive enumeration (DFS) of operation sequences over {set, subscribe, poll(i), clone, drop} against zlink_tokio::notified and zlink_smol::notified, hand-polled on one thread, logs compared with the latest-value rule and with each other",
          "Every sequence of <=8/10 operations with <=3 subscribers and <=3 state handles; per subscriber: items are values set after it subscribed, in order, each once, marked continuing; a drained subscriber has seen the latest value; a pending subscriber is woken by the next set; no end of stream while a state handle exists; tokio and smol observation logs equal; the 4 one-shot scenarios per crate.",
          "Trusted: the broadcast/oneshot channel libraries are linearizable, so cross-thread use reduces to these sequences.", "4 C20"),
+ "C12": ("corpus", "exhaustive enumeration of a generated program corpus: every proxy method of a systematically enumerated trait corpus is compiled against /repo's macro and executed for every combination of boundary argument values x call forms x scripted replies",
+         "154 (quick) / 462 (thorough) generated proxy methods; the frame each call form writes is compared, as JSON value and member set, with the frame the generator derives from the declaration (method path, wire names, omitted None, flags); results are mapped as the receive classification says; streams yield one item per reply. A corpus that does not compile is a violation reported by the build step.",
+         "Trusted: the generator's reading of the declaration (PascalCase rule). Bounded: parameter lists of length <=2 exhaustively over 11 types, longer lists by position coverage.", "4 C12"),
 }
 
 NOT_YET = {
